@@ -19,8 +19,41 @@ CHECKS = {
         note='Trusted: CrossHair\'s model of str/re/dict (every counterexample is replayed on plain CPython before it is '
              'reported); z3. Bounds: header length, the listed messages, one mutation at a time.',
         ref='DESIGN.md §3 C15'),
+    'C09': dict(
+        technique='solver-based: CrossHair/z3 exhaustion of a symbolic bounded operation history on real hl7apy elements, '
+                  'compared step by step with a list reference model',
+        text='Bounded model checking over operation histories: every history of length <=2 over the full operation '
+             'alphabet (set by name/long name, add, add_<child>, proxy[i]=, del by name/index, remove, copy, assign element) '
+             'and every history of length 3 over the core alphabet (thorough: length 3 over the full alphabet) on a PID '
+             'segment and an ADT_A01 message, from 2-3 initial states; after every step the encoding must equal the '
+             'reference list model\'s. Exhaustive inside the bound (CrossHair "Confirmed over all paths" per piece).',
+        note='Action indices are symbolic; z3 enumerates/exhausts the finite action space, the library runs concretely per '
+             'path (a history of small integers leaves nothing to abstract). Trusted: reference model/encoder in '
+             'harness/hist.py, CrossHair, z3. Bound: history length, the listed children, TOLERANT, v2.5.',
+        ref='DESIGN.md §3 C09'),
+    'C10': dict(
+        technique='solver-based: CrossHair/z3 exhaustion of symbolic bounded histories (incl. refused operations and '
+                  're-attachment) with a tree-consistency observer after every step',
+        text='Bounded model checking over histories of length <=2 (thorough: full alphabet, plus length 3 over selected '
+             'operations) on a segment (inside a message), a message and a field, both validation levels symbolic: after '
+             'EVERY operation, accepted or refused, parent pointers, single listing, list/by-name index/proxy/len/iter/in/[] '
+             'agreement and one version + one level per tree are checked by an outside observer.',
+        note='Same engine and trusted base as C09; the observer reads ElementList.list/indexes/traversal_indexes and '
+             'Element._parent without writing.',
+        ref='DESIGN.md §3 C10'),
+    'C12': dict(
+        technique='solver-based: CrossHair/z3 exhaustion of symbolic bounded histories whose operations may be refused; '
+                  'before/after snapshot comparison on every raising call',
+        text='Bounded model checking: for every history of length <=2 (thorough: full alphabet and length 3) drawn from '
+             'accepted and refusable operations (wrong class, wrong name, other version, other level, cardinality, invalid '
+             'value, absent index, datatype change on populated element, replacement by each of those), whenever a call '
+             'raises, the target, the second element and the enclosing message encode and list exactly the same children as '
+             'before, and the offered child is not left half-attached.',
+        note='Same engine and trusted base as C09/C10. Snapshot = to_er7() + identity listing of children, recursively.',
+        ref='DESIGN.md §3 C12'),
 }
 
+PLANNED = ['C%02d' % i for i in range(1, 20)]
 NOT_APPLICABLE = []
 
 
@@ -56,7 +89,10 @@ def main():
              'kind_free_text': E1},
         ],
         'checks': checks,
-        'not_applicable': NOT_APPLICABLE,
+        'not_applicable': NOT_APPLICABLE + [
+            {'property_id': p, 'reason': 'no check registered at this commit (planned with the same technique, see DESIGN.md §3); '
+                                         'nothing is claimed for it yet'}
+            for p in PLANNED if p not in CHECKS and p not in [n['property_id'] for n in NOT_APPLICABLE]],
         'notes': 'Exit codes of ./check: 0 held on everything explored; 1 VIOLATION (replayed on the real library, not in '
                  'known_findings.json); 2 harness/infrastructure error. fix: commits in /repo are listed in '
                  'known_findings.json as fixed entries.',
